@@ -339,7 +339,7 @@ def load_findings():
 
 
 def open_findings(prop):
-    return [e for e in load_findings().get("open", []) if e.get("property") == prop]
+    return [e for e in load_findings().get("open", []) if prop in e.get("properties", [])]
 
 
 def write_replay(prop, payload):
